@@ -1040,3 +1040,228 @@ Proof.
   match goal with |- context [run ?s post] => destruct (once_run post s eq_refl) as [O1 _] end.
   unfold exec_events, rec_events in O1. unfold rec_events. rewrite O1. rewrite app_nil_r. reflexivity.
 Qed.
+
+(* ------------------------------------------------------------------ the wait group *)
+Definition cnt (r : nat) (sv : list (nat * nat * nat)) : nat := length (filter (fun x => snd x =? r) sv).
+
+(* wg = goroutines serving + pending Add(1)s of operations in progress (offset p) *)
+Definition wg_inv (p : nat -> nat) (w : nat -> nat) (sv : list (nat * nat * nat)) : Prop :=
+  forall r, w r = cnt r sv + p r.
+
+Lemma cnt_app r a b : cnt r (a ++ b) = cnt r a + cnt r b.
+Proof. unfold cnt. rewrite filter_app, app_length. reflexivity. Qed.
+
+Lemma spawn_inv p i root saved : forall w sv w' sv',
+  spawn i root saved w sv = (w', sv') -> wg_inv p w sv -> wg_inv p w' sv'.
+Proof.
+  induction saved as [|[j sp] l IH]; intros w sv w' sv' H I; simpl in H.
+  - injection H as <- <-. exact I.
+  - eapply IH; [exact H|]. intro r. rewrite cnt_app. unfold cnt at 2. simpl.
+    unfold wg_done, wg_add. rewrite (Nat.eqb_sym root r). specialize (I r).
+    destruct (r =? root); simpl; lia.
+Qed.
+
+Lemma spawn_serving i root saved : forall w sv w' sv',
+  spawn i root saved w sv = (w', sv') -> sv' = sv ++ map (fun x => (i, fst x, root)) saved.
+Proof.
+  induction saved as [|[j sp] l IH]; intros w sv w' sv' H; simpl in H.
+  - injection H as _ <-. rewrite app_nil_r. reflexivity.
+  - rewrite (IH _ _ _ _ H). rewrite <- app_assoc. reflexivity.
+Qed.
+
+Lemma take_serving_cnt i j sv root sv1 r :
+  take_serving i j sv = Some (root, sv1) -> cnt r sv = cnt r sv1 + (if root =? r then 1 else 0).
+Proof.
+  revert root sv1. induction sv as [|x sv IH]; intros root sv1 H; simpl in H; [discriminate|].
+  destruct ((fst (fst x) =? i) && (snd (fst x) =? j)).
+  - injection H as <- <-. unfold cnt. simpl. destruct (snd x =? r); simpl; lia.
+  - destruct (take_serving i j sv) as [[r' l']|]; [|discriminate]. injection H as <- <-.
+    specialize (IH _ _ eq_refl). unfold cnt in *. simpl. destruct (snd x =? r); simpl; lia.
+Qed.
+
+Lemma stop_servers_inv p i srv : forall w sv w' sv' ev,
+  stop_servers i srv w sv = (w', sv', ev) -> wg_inv p w sv -> wg_inv p w' sv'.
+Proof.
+  induction srv as [|[j sp] srv IH]; intros w sv w' sv' ev H I; simpl in H.
+  - injection H as <- <- <-. exact I.
+  - destruct (sv_graceful sp); [|eapply IH; eauto].
+    destruct (take_serving i j sv) as [[root sv1]|] eqn:T.
+    + destruct (stop_servers i srv (wg_done root w) sv1) as [[w2 sv2] ev2] eqn:E.
+      injection H as <- <- <-. eapply IH; [exact E|]. intro r.
+      pose proof (take_serving_cnt _ _ _ _ _ r T) as C. specialize (I r).
+      unfold wg_done. rewrite (Nat.eqb_sym r root). destruct (root =? r); lia.
+    + destruct (stop_servers i srv w sv) as [[w2 sv2] ev2] eqn:E.
+      injection H as <- <- <-. eapply IH; eauto.
+Qed.
+
+Lemma stop_inst_inv p o s s' ev :
+  stop_inst o s = (s', ev) -> wg_inv p (wg s) (serving s) -> wg_inv p (wg s') (serving s').
+Proof.
+  unfold stop_inst. destruct (stop_servers (i_id o) (i_srv o) (wg s) (serving s)) as [[w sv] e] eqn:E.
+  intros H I. injection H as <- <-. simpl. eapply stop_servers_inv; eauto.
+Qed.
+
+Lemma commit_inv p ni nx s : wg_inv p (wg s) (serving s) -> wg_inv p (wg (commit ni nx s)) (serving (commit ni nx s)).
+Proof.
+  unfold commit. destruct (spawn (i_id ni) (i_root ni) (i_srv ni) (wg s) (serving s)) as [w sv] eqn:E.
+  simpl. eapply spawn_inv; eauto.
+Qed.
+
+Definition bump (r : nat) (p : nat -> nat) : nat -> nat := fun x => if x =? r then p x + 1 else p x.
+
+Lemma inv_add p r w sv : wg_inv p w sv -> wg_inv (bump r p) (wg_add r 1 w) sv.
+Proof. intros I x. unfold bump, wg_add. specialize (I x). destruct (x =? r); lia. Qed.
+
+Lemma inv_done p r w sv : wg_inv (bump r p) w sv -> wg_inv p (wg_done r w) sv.
+Proof. intros I x. specialize (I x). unfold bump in I. unfold wg_done. destruct (x =? r); lia. Qed.
+
+Lemma stop_all_inv l : forall p s s' ev,
+  stop_all l s = (s', ev) -> wg_inv p (wg s) (serving s) -> wg_inv p (wg s') (serving s').
+Proof.
+  induction l as [|o l IH]; intros p s s' ev E I; simpl in E.
+  - injection E as <- <-. exact I.
+  - destruct (stop_inst o (set_wg s (wg_add (i_root o) 1 (wg s)))) as [sa ea] eqn:E1.
+    destruct (stop_all l sa) as [sb eb] eqn:E2. injection E as <- <-. simpl.
+    apply inv_done. eapply IH; [exact E2|]. eapply stop_inst_inv; [exact E1|]. simpl. apply inv_add. exact I.
+Qed.
+
+Lemma step_wg_inv s o s' ev r :
+  step s o = (s', ev, r) -> wg_inv (fun _ => 0) (wg s) (serving s) -> wg_inv (fun _ => 0) (wg s') (serving s').
+Proof.
+  destruct o as [c|h c|h| |h| |h]; simpl; intros H I.
+  - unfold do_start in H. destruct (start_plan c (next s) false [] 0) as [[e ok] saved].
+    destruct ok; injection H as <- <- <-; [apply commit_inv; exact I|exact I].
+  - unfold do_restart in H. destruct (find_inst h (known s)) as [o|]; [|injection H as <- <- <-; exact I].
+    destruct (restart_body o c (set_wg s (wg_add (i_root o) 1 (wg s)))) as [[s1 e1] r1] eqn:E.
+    injection H as <- <- <-. simpl. apply inv_done.
+    apply restart_body_cases in E. cbv zeta in E. simpl in E.
+    destruct E as [[_ [-> _]] | [_ [e2 [ok2 [saved [P [[_ [-> _]] | [_ [e3 [S3 _]]]]]]]]]]; simpl;
+      try (apply inv_add; exact I).
+    eapply stop_inst_inv; [exact S3|]. apply commit_inv. simpl. apply inv_add. exact I.
+  - destruct (find_inst h (known s)) as [x|]; [|injection H as <- <- <-; exact I].
+    destruct (stop_inst x s) as [s2 e2] eqn:E. injection H as <- <- <-. eapply stop_inst_inv; eauto.
+  - destruct (stop_all (insts s) s) as [s2 e2] eqn:E. injection H as <- <- <-. eapply stop_all_inv; eauto.
+  - destruct (find_inst h (known s)); injection H as <- <- <-; exact I.
+  - destruct (once s); injection H as <- <- <-; exact I.
+  - destruct (find_inst h (known s)); injection H as <- <- <-; exact I.
+Qed.
+
+Lemma final_wg_inv ops : forall s, wg_inv (fun _ => 0) (wg s) (serving s) ->
+  wg_inv (fun _ => 0) (wg (final s ops)) (serving (final s ops)).
+Proof.
+  induction ops as [|o l IH]; intros s I; simpl; [exact I|].
+  destruct (step s o) as [[s' ev] r] eqn:E. simpl. apply IH. eapply step_wg_inv; eauto.
+Qed.
+
+(* between operations the wait-group counter of a lineage is exactly the number of its Serve
+   goroutines still running *)
+Lemma wg_counts_serving ops r :
+  wg (final init ops) r = cnt r (serving (final init ops)).
+Proof.
+  assert (I0 : wg_inv (fun _ => 0) (wg init) (serving init)) by (intro x; reflexivity).
+  pose proof (final_wg_inv ops init I0 r) as I. simpl in I. lia.
+Qed.
+
+Lemma cnt_zero r sv : cnt r sv = 0 -> forall x, In x sv -> snd x <> r.
+Proof.
+  unfold cnt. intros H x Hx E. apply Nat.eqb_eq in E.
+  assert (In x (filter (fun y => snd y =? r) sv)) as F by (apply filter_In; auto).
+  destruct (filter (fun y => snd y =? r) sv); [contradiction|discriminate].
+Qed.
+
+(* Wait on an instance returns only when no server whose goroutine holds the lineage's wait
+   group is serving *)
+Lemma wait_after_all_servers ops h s' ev :
+  step (final init ops) (OWait h) = (s', ev, RBool true) ->
+  exists o, find_inst h (known (final init ops)) = Some o /\
+            forall x, In x (serving (final init ops)) -> snd x <> i_root o.
+Proof.
+  simpl. destruct (find_inst h (known (final init ops))) as [o|] eqn:F; [|discriminate].
+  intro H. injection H as _ _ H. apply Nat.eqb_eq in H. rewrite wg_counts_serving in H.
+  exists o. split; [reflexivity|]. apply cnt_zero. exact H.
+Qed.
+
+(* the servers of a successor are accounted to the lineage of the instance it replaced: a reload
+   commits the new instance with the old instance's root *)
+Lemma reload_keeps_root s h c s' ev n :
+  step s (ORestart h c) = (s', ev, RInst true n) ->
+  exists o x, find_inst h (known s) = Some o /\ known s' = known s ++ [x] /\
+              i_id x = n /\ i_root x = i_root o /\
+              exists rest, serving s' = rest /\
+                forall j, In (EServe n j) ev -> In (n, j, i_root o) (serving (commit x (next_after c n) (set_wg s (wg_add (i_root o) 1 (wg s))))).
+Proof.
+  simpl. unfold do_restart. intro H. destruct (find_inst h (known s)) as [o|] eqn:F; [|discriminate].
+  pose proof (find_inst_id _ _ _ F) as Hid.
+  destruct (restart_body o c (set_wg s (wg_add (i_root o) 1 (wg s)))) as [[s1 e1] r1] eqn:E.
+  injection H as <- <- ->.
+  apply restart_body_cases in E. cbv zeta in E. simpl in E. rewrite Hid in E.
+  destruct E as [[_ [_ [D _]]] | [_ [e2 [ok2 [saved [P E]]]]]]; [discriminate|].
+  destruct E as [[_ [_ [D _]]] | [-> [e3 [S3 E]]]]; [discriminate|].
+  destruct E as [[_ [D _]] | [_ [D ->]]]; [discriminate|]. injection D as D. subst n.
+  exists o, (mkInst (next s) (i_root o) c saved). split; [reflexivity|].
+  destruct (stop_inst_next _ _ _ _ S3) as [_ [K _]]. simpl. rewrite K.
+  split.
+  { unfold commit. destruct (spawn _ _ _ _ _). reflexivity. }
+  split; [reflexivity|]. split; [reflexivity|]. eexists. split; [reflexivity|].
+  intros j Hin.
+  pose proof (start_plan_shape _ _ _ _ _ _ _ _ P) as [hd f su li tl Heq Hhd _ _ _ _ _ Hli _ _ Hok].
+  destruct (Hok eq_refl) as [_ [-> [-> [-> [_ ->]]]]].
+  assert (Hs : In (EServe (next s) j) (serve_events (next s) saved)).
+  { pose proof (stop_inst_events _ _ _ _ S3) as Hst. subst e2. rewrite app_nil_r in Hin.
+    repeat (apply in_app_or in Hin as [Hin|Hin]);
+      try (apply in_cb_events in Hin as [m [D _]]; discriminate);
+      try (simpl in Hin; intuition discriminate); auto.
+    - apply (forallb_In _ _ _ Hli) in Hin. discriminate.
+    - apply (forallb_In _ _ _ Hst) in Hin. discriminate. }
+  unfold serve_events in Hs. apply in_map_iff in Hs as [x [Hx Hxs]]. injection Hx as <-.
+  unfold commit. simpl. destruct (spawn (next s) (i_root o) saved _ _) as [w sv] eqn:SP. simpl.
+  rewrite (spawn_serving _ _ _ _ _ _ _ SP). apply in_or_app. right.
+  apply in_map_iff. exists x. auto.
+Qed.
+
+Lemma reload_shares_wait_group s h c s' ev n :
+  step s (ORestart h c) = (s', ev, RInst true n) ->
+  exists o x, find_inst h (known s) = Some o /\ known s' = known s ++ [x] /\
+              i_id x = n /\ i_root x = i_root o.
+Proof.
+  intro H. destruct (reload_keeps_root _ _ _ _ _ _ H) as [o [x [A [B [C [D _]]]]]]. exists o, x. auto.
+Qed.
+
+Lemma failed_reload_start_events c i old oi ev saved e :
+  start_plan c i true old oi = (ev, false, saved) -> In e ev ->
+  e = ENew i \/ e = EMake i \/ (exists n, e = ECb KStartup i n) \/ is_listen_ev i oi e = true.
+Proof. intro H. apply plan_fail_events with (c := c) (old := old) (saved := saved). apply start_plan_shape. exact H. Qed.
+
+(* a fresh start: the complete list of events of a successful casket.Start *)
+Lemma start_ok_shape s c s' ev n :
+  step s (OStart c) = (s', ev, RInst true n) ->
+  exists li saved,
+    n = next s /\ listen_loop false [] 0 n 0 (c_servers c) = (li, true, saved) /\
+    forallb (is_listen_ev n 0) li = true /\
+    ev = ENew n :: EMake n :: cb_events KFirst n (labels (c_first c)) ++ cb_events KStartup n (labels (c_startup c))
+         ++ li ++ serve_events n saved ++ after_events n saved ++ [EHook HInstanceStartup n].
+Proof.
+  simpl. unfold do_start. destruct (start_plan c (next s) false [] 0) as [[e ok] saved] eqn:E.
+  destruct ok; intro H; [|discriminate]. injection H as <- <- <-.
+  pose proof (start_plan_shape _ _ _ _ _ _ _ _ E) as [hd f su li tl Heq _ _ _ _ _ _ Hli _ _ Hok].
+  destruct (Hok eq_refl) as [_ [-> [-> [-> [LL ->]]]]].
+  exists li, saved. split; [reflexivity|]. split; [exact LL|]. split; [exact Hli|].
+  rewrite Heq. simpl. rewrite <- !app_assoc. reflexivity.
+Qed.
+
+(* a failed start runs no restart / shutdown callback, stops nothing and serves nothing *)
+Lemma start_fail_events s c s' ev n e :
+  step s (OStart c) = (s', ev, RInst false n) -> In e ev ->
+  e = ENew (next s) \/ e = EMake (next s) \/ (exists l, e = ECb KFirst (next s) l) \/
+  (exists l, e = ECb KStartup (next s) l) \/ is_listen_ev (next s) 0 e = true.
+Proof.
+  simpl. unfold do_start. destruct (start_plan c (next s) false [] 0) as [[e0 ok] saved] eqn:E.
+  destruct ok; intro H; [discriminate|]. injection H as <- <- <-. intro Hin.
+  pose proof (start_plan_shape _ _ _ _ _ _ _ _ E) as [hd f su li tl Heq Hhd _ _ _ _ _ Hli _ Hft _].
+  subst e0. rewrite (Hft eq_refl), app_nil_r in Hin.
+  repeat (apply in_app_or in Hin as [Hin|Hin]).
+  - destruct Hhd as [->|[->| ->]]; simpl in Hin; intuition.
+  - apply in_cb_events in Hin as [l [-> _]]. eauto.
+  - apply in_cb_events in Hin as [l [-> _]]. eauto 6.
+  - right. right. right. right. eapply forallb_In; eauto.
+Qed.
